@@ -33,6 +33,7 @@ EXPLANATION = (
 )
 NONTRIVIAL_RULE = "processed an event that entered or left a final state"
 BOUNDS = {
+    "same_key_parallel": "machine SK: three parallel states that share the local key 'checks' (two active at once in sibling regions, one entered later); event sequences of length N (item label) over {A1, A2, B1, B2, NEXT, NOP} from start(); both engines; after every event each state's onDone marker fired exactly when its doneness rose",
     "done_step": "machine DM (and DM2 with prefix-named regions); every stable legal configuration; one event of the 7-letter alphabet; both engines",
     "done_run": "machine DM; event sequences of length <= N (item label) over the alphabet from start(); both engines",
     "nested_final": "a final state nested in a compound (1 or 2 levels) or in every region of a parallel state, no ancestor declaring onDone: entering it does not complete the machine (status running, no output, on_done hook silent), the next event is handled, the top-level final state then completes it once; both engines",
@@ -96,6 +97,8 @@ def _machine(name: str) -> Any:
             cfg = dm_config(False)
         elif name == "DM2":
             cfg = dm_config(True)
+        elif name == "SK":
+            cfg = sk_config()
         else:
             cfg = top_config(int(name[3:]))
         m = create_machine(common.mark(cfg), logic=make_logic(services={"svc": lambda i, c, e: {"answer": 42}}))
@@ -537,7 +540,65 @@ def top_final(eng: int, variant: int, which: bool, k: int) -> bool:
     return verdict(ok)
 
 
-OBLIGATIONS = {"done_step": done_step, "done_run": done_run, "top_final": top_final, "double_final": double_final, "nested_final": nested_final}
+# ---------------------------------------------------------------------------
+# several parallel states with the SAME local key (order.checks / refund.checks)
+# ---------------------------------------------------------------------------
+
+SK_EVENTS = ["A1", "A2", "B1", "B2", "NEXT", "NOP"]
+
+
+def sk_config() -> Dict[str, Any]:
+    def checks(owner: str, e1: str, e2: str) -> Dict[str, Any]:
+        return {"type": "parallel", "onDone": {"actions": _tr(f"{owner}.checks.done")},
+                "states": {"u": {"initial": "a", "states": {"a": {"on": {e1: "fa"}}, "fa": {"type": "final"}}},
+                           "v": {"initial": "b", "states": {"b": {"on": {e2: "fb"}}, "fb": {"type": "final"}}}}}
+
+    return {
+        "id": "m", "initial": "S",
+        "states": {
+            # two parallel states called 'checks' active at the same time in sibling regions ...
+            "S": {"type": "parallel", "on": {"NEXT": "T"},
+                  "states": {"alpha": {"initial": "checks", "states": {"checks": checks("alpha", "A1", "A2")}},
+                             "beta": {"initial": "checks", "states": {"checks": checks("beta", "B1", "B2")}}}},
+            # ... and a third one of the same name that becomes active later
+            "T": {"initial": "checks", "states": {"checks": checks("T", "A1", "B2")}},
+        },
+    }
+
+
+def same_key_parallel(eng: int, e0: int, e1: int, e2: int, e3: int, e4: int) -> bool:
+    """
+    pre: 0 <= eng <= 1
+    pre: gate('same_key_parallel', eng=eng)
+    post: _
+    """
+    m = _machine("SK")
+    by = _by_id(m)
+    evs = [SK_EVENTS[pick(s, len(SK_EVENTS))] for s in [e0, e1, e2, e3, e4][: P.get("N", 4)]]
+    it, obs = _run_events(m, eng, None, evs)
+    owners = [n for n in by.values() if n.key == "checks"]
+    why = None
+    for i, e in enumerate(evs):
+        before = [by[x] for x in obs[i][0]]
+        after = [by[x] for x in obs[i + 1][0]]
+        fired = [r[1] for r in obs[i + 1][1] if r[0] == "tr"]
+        for c in owners:
+            tag = c.id[2:].replace("S.", "") + ".done"          # m.S.alpha.checks -> alpha.checks.done ; m.T.checks -> T.checks.done
+            was = any(b is c for b in before) and done_ref(before, c)
+            now = any(a is c for a in after) and done_ref(after, c)
+            want = 1 if (now and not was) else 0
+            if fired.count(tag) != want:
+                why = (f"{'sync' if eng == 0 else 'async'} run {evs[:i + 1]}: onDone of {c.id} fired {fired.count(tag)}x, expected {want} "
+                       f"(configuration {obs[i + 1][0]})")
+                break
+        if why:
+            break
+    if why:
+        _note(why)
+    return verdict(why is None)
+
+
+OBLIGATIONS = {"same_key_parallel": same_key_parallel, "done_step": done_step, "done_run": done_run, "top_final": top_final, "double_final": double_final, "nested_final": nested_final}
 PROBES = {"done_step": [{"evsel": 0}, {"evsel": 2}, {"c0": 1, "c1": 1, "evsel": 2}],
           "top_final": [{"variant": 2, "which": True}, {"variant": 1, "which": True, "k": 1}]}
 
@@ -549,6 +610,8 @@ def items(tier: str, seed: int) -> List[Dict[str, Any]]:
         out.append({"ob": "done_step", "params": {"machine": mname}, "timeout": 240, "label": f"done_step[{mname}]"})
     for n in ([2, 3] if quick else [3, 4]):
         out.append({"ob": "done_run", "params": {"machine": "DM", "N": n}, "timeout": 280 if quick else 2400, "label": f"done_run[N={n}]"})
+    out.append({"ob": "same_key_parallel", "params": {"machine": "SK", "N": 4 if quick else 5}, "timeout": 280 if quick else 1500,
+                "label": f"same_key_parallel[N={4 if quick else 5}]"})
     out.append({"ob": "top_final", "params": {"machine": "TOP0"}, "timeout": 200, "label": "top_final"})
     out.append({"ob": "double_final", "params": {"machine": "TOP0"}, "timeout": 200, "label": "double_final"})
     out.append({"ob": "nested_final", "params": {"machine": "TOP0"}, "timeout": 200, "label": "nested_final"})
